@@ -18,7 +18,7 @@ fn generate(ctx: &Ctx, n: usize, via_file: bool, tag: &str) -> Result<String, St
     let dir = ctx.fresh_dir(&format!("c15-{}", tag));
     let _ = std::fs::create_dir_all(&dir);
     let mut args = vec!["-n".to_string(), n.to_string()];
-    let file = dir.join("queens.txt");
+    let file = dir.join(super::common::hostile_file_name(n, "queens.txt"));
     if via_file {
         // the output file already exists and is longer than what will be written
         let _ = std::fs::write(&file, super::common::stale_content());
@@ -60,6 +60,8 @@ pub fn check_n(ctx: &Ctx, st: &mut Stats, n: usize, exact: bool, with_rsbdd: boo
     if n <= 64 {
         match generate(ctx, n, true, &format!("{}-b", n)) {
             Ok(t2) if t2 == text => st.bump("file_output_equals_stdout"),
+            // (comments may differ — a header may name the output; what counts is the formula)
+            Ok(t2) if matches!((refsyn::parse_text(&t2), refsyn::parse_text(&text)), (Ok(x), Ok(y)) if x == y) => st.bump("file_output_is_the_same_formula_as_stdout"),
             Ok(t2) => st.violate("c15.run", format!("C15:file-output-differs:n={}", n), format!("n = {}: output written to an (already existing, longer) file differs from stdout: {} vs {} bytes; tail of the file: {:?}", n, t2.len(), text.len(), t2.chars().rev().take(60).collect::<String>().chars().rev().collect::<String>()), case()),
             Err(e) if e == "watchdog" => st.inconclusive(format!("n_queens_gen -n {} (file output) hit the watchdog or could not be started", n)),
             Err(e) => st.violate("c15.run", format!("C15:generator-failed:n={}", n), e, case()),
